@@ -88,6 +88,9 @@ def cases(tier, seed):
     out.append(('coarse_storage', dict(shape='-', kw={}, level='coarse13', c13=dict(opt='coarse', kind='storage', T=4, eff=0.75))))
     out.append(('coarse_contract_discounted', dict(shape='-', kw={}, level='coarse13', c13=dict(opt='coarse', kind='contract', T=4, ec=True, wacc=True, freq='d', coarse='2d'))))
     out.append(('coarse_transport_discounted', dict(shape='-', kw={}, level='coarse13', c13=dict(opt='coarse', kind='transport', T=4, eff=0.5, costs=True, wacc=True, freq='d', coarse='2d'))))
+    # sequences of calls on the same objects (decided with C10's history machinery: the final problem equals that of fresh objects)
+    # -- the same objects set up a second time: quantities of a take period reaching beyond the horizon are prorated once
+    out.append(('history_take_quantities_given_as_array_second_setup', common.delegated('c10', pf='dicts', final='h', histories=[['same'], ['short']])))
     return out
 
 
